@@ -494,7 +494,7 @@ long countCases(Ctx& c)
 {
     if (c.prop != "C16")
         return -1;
-    return static_cast<long>(ops().size() * ops().size()) + 2 + (c.thorough() ? 50000 : 500);
+    return static_cast<long>(ops().size() * ops().size()) + 2 + (c.thorough() ? 50000 : 3000);
 }
 void runCase(Ctx& c, long idx)
 {
